@@ -16,6 +16,10 @@ def main():
     slot, nslots = int(sys.argv[1]), int(sys.argv[2])
     only = sys.argv[3:]
     names = sorted(d for d in os.listdir(DST) if d.startswith("C") and os.path.exists(f"{DST}/{d}/patch.diff"))
+    import re
+    pat = os.environ.get("REMATRIX_FILTER")
+    if pat:
+        names = [d for d in names if re.search(pat, d)]
     names = [d for i, d in enumerate(names) if i % nslots == slot and (not only or d in only)]
     head = sh("git -C /repo rev-parse --short HEAD").stdout.strip()
     wt = f"/tmp/wt/rematrix{slot}"
@@ -47,7 +51,8 @@ def main():
             out["confirmed"] = (r0 == 0 and r1 != 0 and suite.startswith("2 failed, 2477 passed"))
             out["detected_by"], out["missed_by"] = [], []
             try:
-                for chk in [pid] + EXTRA.get(pid, []):
+                prior = [c for c in old.get("detected_by", []) if c != pid] if old.get("status") != "detected" else []
+                for chk in [pid] + (prior or ([] if os.environ.get("REMATRIX_OWN_ONLY") else EXTRA.get(pid, []))):
                     r = sh(f"./check {chk}", cwd="/verif", env=dict(os.environ, DEP_LOGIC_SRC=f"{wt}/src"))
                     viol = [l for l in r.stdout.splitlines() if l.startswith("  " + chk + ":")][:1]
                     ran.append(f"./check {chk} with patch: exit {r.returncode}" + (f" first: {viol[0].strip()[:200]}" if viol else ""))
